@@ -64,6 +64,16 @@ class ProcessPool:
         fate = 'ok'
         if f is not None and f['kind'] in ('timeout', 'death') and (T > 0 or f['kind'] == 'death'):
             fate = f['kind']
+        big = c.cfg.get('pool_big_clauses')
+        if fate == 'ok' and big and T > 0:
+            # a job far too large for the simulated solver within the deadline: virtual duration > T
+            try:
+                size = len(args[1]) if len(args) > 1 else 0
+            except Exception:
+                size = 0
+            if size > big:
+                fate = 'timeout'
+                c.stats.fired.bump('pool.call:timeout-by-size')
         if fate == 'timeout':
             dt = T
         elif fate == 'death':
